@@ -159,3 +159,7 @@ func VerifC12ProxyState(s *Session) (bool, bool, string, string) {
 	}
 	return true, s.proxy.IsActive(), s.proxy.name, s.proxy.addr
 }
+
+// VerifC12ScriptSync runs the client's Script handler (muxHandleScriptAsync = muxHandleScript +
+// muxHandleSend) on the calling goroutine instead of a new one.
+func VerifC12ScriptSync(s *Session, n *com.Packet) { muxHandleScriptAsync(s, n) }
